@@ -39,7 +39,7 @@ def run(prop, tier):
         print("unknown or unclaimed property %s" % prop)
         return 2
     p = PROPERTIES[prop]
-    configs = ["default"] if tier == "quick" else ["default", "nofeat", "allfeat"]
+    configs = ["default"] if tier == "quick" else ["default", "minimal"]
     seed = int(os.environ.get("VERIF_SEED", "0") or 0)
     code = run_property(prop, tier, p["rules"], configs, p["level_text"] or "static rules over MIR", p["assumptions"], seed)
     if tier == "thorough" and code == 0:
